@@ -1,7 +1,8 @@
 (* C16 - The BUILD language agrees with Python on its documented subset.
    This file holds only the statement, the property theorems and their non-vacuity examples. *)
-From PlzV Require Import Base.Harness Model.C16_Syntax Model.C16_Ops Model.C16_Prim Model.C16_Eval Model.C16 Model.C16_Pure.
-From PlzV Require Import Proof.C16_Ops Proof.C16_Int Proof.C16 Proof.C16_Prog Proof.C16_Pure.
+From Coq Require Import Permutation Sorted.
+From PlzV Require Import Base.Harness Model.C16_Syntax Model.C16_Ops Model.C16_Prim Model.C16_Eval Model.C16 Model.C16_Pure Model.C16_Sort.
+From PlzV Require Import Proof.C16_Ops Proof.C16_Int Proof.C16 Proof.C16_Prog Proof.C16_Pure Proof.C16_Sort.
 
 (* Every program of the modelled subset (integers, strings, lists, dicts, comprehensions, functions, if/for and
    the builtins len sorted reversed range enumerate zip any all min max str join split ...) that asp evaluates
@@ -31,7 +32,15 @@ Print Assumptions C16_refuted.
       same sign or divisor zero; // with |operands| < 2^53 and a non-zero divisor; never /);
    3. + on EVERY list allocates a fresh array with capacity = length and writes no existing one (/repo 7aeabfa);
    4. whole programs `x = <chain over integer literals>`: if the chain is safe and CPython's evaluation of it (tree_val)
-      stays within the side conditions of 2, the asp run and the CPython run of the program are equal. *)
+      stays within the side conditions of 2, the asp run and the CPython run of the program are equal;
+   5. sorted(seq, key=f, reverse=rv), for EVERY list of (key, element) pairs of any length and both directions, with the
+      comparison operator and the post-processing gotrans read off builtins.go: the result is a permutation of the input,
+      ordered by key in the requested direction, and the elements of EQUAL key stand in their input order - CPython's
+      stable sort, reverse=True included (insertionSortLessFunc, i.e. sort.Slice up to 12 elements); and these three
+      properties leave no other result: every list that has them IS the list sorted() returns;
+   6. d | e, for ALL operands and states, as the steps gotrans translated from pyDict.Operator: the result is a dict that did
+      not exist before, no list and no existing dict is written, a later store into the result is invisible in every older
+      dict and vice versa; and these steps are the union of the evaluator (apply_bin) on every dict without duplicate keys. *)
 Definition C16_partial_statement : Prop :=
   (forall fuel (p : prog) ps,
      in_pure_subset p = true -> pure_run fuel p = Ok ps ->
@@ -53,14 +62,34 @@ Definition C16_partial_statement : Prop :=
   /\ (forall fuel x z0 ops v,
         ops_safe (items_of ops) = true ->
         tree_val (py_tree (TVal (VInt z0)) (items_of ops)) = Some v ->
-        run Asp [] fuel [chain_prog x z0 ops] = run Py [] fuel [chain_prog x z0 ops]).
+        run Asp [] fuel [chain_prog x z0 ops] = run Py [] fuel [chain_prog x z0 ops])
+  /\ (forall (rv : bool) (l r : list keyed),
+        asp_sorted rv l = Some r ->
+        Permutation r l
+        /\ StronglySorted (in_order rv) r
+        /\ (forall k, filter (fun x => key_eqb (fst x) k) r = filter (fun x => key_eqb (fst x) k) l))
+  /\ (forall (rv : bool) (l r r' : list keyed),
+        asp_sorted rv l = Some r ->
+        Permutation r' l -> StronglySorted (in_order rv) r' ->
+        (forall k, filter (fun x => key_eqb (fst x) k) r' = filter (fun x => key_eqb (fst x) k) l) ->
+        r' = r)
+  /\ (forall i j st v st',
+        union_translated i j st = Ok (v, st') ->
+        v = VDict (length (dicts st)) /\ arrays st' = arrays st
+        /\ dicts st' = dicts st ++ [dict_merge_into (dict_merge_into [] (dict_of st i)) (dict_of st j)])
+  /\ (forall i j st n st' k x a,
+        union_translated i j st = Ok (VDict n, st') -> (a < length (dicts st))%nat ->
+        dict_of (dict_store n k x st') a = dict_of st a /\ dict_of (dict_store a k x st') n = dict_of st' n)
+  /\ (forall fuel i j st, nodup_keys (dict_of st i) ->
+        apply_bin Asp fuel Union (VDict i) (VDict j) st = union_translated i j st).
 
 Theorem C16_partial : C16_partial_statement.
 Proof.
   exact (conj pure_subset_program_agrees (conj chain_unflagged_agrees
         (conj (@chain_class_none_safe vexpr)
         (conj (@groupings_agree vexpr value)
-        (conj int_ops_agree (conj list_add_always_fresh int_chain_program_agrees)))))).
+        (conj int_ops_agree (conj list_add_always_fresh (conj int_chain_program_agrees
+        (conj asp_sorted_stable (conj asp_sorted_is_the_stable_sort (conj dict_union_always_fresh (conj dict_union_independent union_translated_is_apply_bin))))))))))).
 Qed.
 Print Assumptions C16_partial.
 
@@ -113,4 +142,22 @@ Example C16_partial_pure_nonvacuous :
       | _ => False
       end)
   /\ in_pure_subset w_mod = true /\ is_ok (pure_run FUEL w_mod) = false /\ differs FUEL [] w_mod w_mod = true.
+Proof. vm_compute. repeat split. Qed.
+
+(* ... and of conjuncts 5 and 6: b.go a.c d.go c.h e.c sorted by extension, reverse=True (keys go c go h c): the model
+   returns c.h b.go d.go a.c e.c - CPython's order, the two .go files and the two .c files in input order (a sort that
+   sorts ascending and reverses the result returns c.h d.go b.go e.c a.c); and {"a": 1} | {} on a heap holding the two
+   dicts is dict 2, after which a store into dict 2 leaves dict 0 as it was. *)
+Example C16_partial_sort_union_nonvacuous :
+  let keys := [KStr (s "go"); KStr (s "c"); KStr (s "go"); KStr (s "h"); KStr (s "c")] in
+  asp_sorted_perm keys true = Some [3; 0; 2; 1; 4]%nat
+  /\ map (@snd _ _) (py_sorted true (tag keys)) = [3; 0; 2; 1; 4]%nat
+  /\ map (@snd _ _) (rev (go_isort (fun a b => key_less SLt (fst a) (fst b)) (tag keys))) = [3; 2; 0; 4; 1]%nat
+  /\ asp_sorted_perm keys false = Some [1; 4; 0; 2; 3]%nat
+  /\ (let st := set_dicts [[(s "a", VInt 1%Z)]; []] empty_state in
+      match union_translated 0 1 st with
+      | Ok (VDict n, st') => n = 2%nat /\ dict_of (dict_store n (s "k") (VInt 9%Z) st') 0 = [(s "a", VInt 1%Z)]
+                             /\ dict_of (dict_store n (s "k") (VInt 9%Z) st') 2 = [(s "a", VInt 1%Z); (s "k", VInt 9%Z)]
+      | _ => False
+      end).
 Proof. vm_compute. repeat split. Qed.
